@@ -12,7 +12,8 @@
 //!   (msg TARGET V)       `notify_message(TARGET, V, heap)`            (TARGET 0 = process under test)
 //!   (res K V)            `notify_result(0, 100+K, V, heap)`
 //!   (fail K)             worker.rs notify_result Err arm: `result = Some(Err(..)); frames.clear()`
-//!   (active)             `mark_active(0)`  (worker.rs update_await_results with no result)
+//!   (report K..)         `notify_await_report(0, [100+K..])` (worker.rs update_await_results, first statement)
+//!   (active)             `mark_active(0)`  (worker.rs update_await_results with no result: wake_selecting)
 //!   (failc K)            the same, only if pid 0 still awaits 100+K (worker.rs after the F45 repair)
 //!   (ff NOW)             quantum-1 steps at NOW until pid 0 is about to re-enter the select
 //!   (drive NOW MAX)      ff + one entry, repeated: run the machine to completion/park at NOW
@@ -157,13 +158,15 @@ fn dump(ctx: &Ctx) -> String {
         .collect();
     aw.sort();
     let aw = aw.iter().map(|(k, v)| format!(" ({} {})", k, v)).collect::<String>();
+    let un = p.unreported_awaits.iter().map(|t| format!(" {}", t)).collect::<String>();
     format!(
-        "(d (q {}) (s {}) {} (mb{}) (aw{}) (res {}) (nt {}) (fr {}) (st {}))",
+        "(d (q {}) (s {}) {} (mb{}) (aw{}) (un{}) (res {}) (nt {}) (fr {}) (st {}))",
         d.queue.iter().filter(|x| **x == PID).count(),
         d.selecting.contains(&PID) as u8,
         sel,
         mb,
         aw,
+        un,
         dump_result(&p.result, ctx),
         ctx.ex.next_timeout_ms().map(|t| t.to_string()).unwrap_or("-".into()),
         p.frames.len(),
@@ -197,7 +200,7 @@ fn handle_action(ctx: &mut Ctx, action: Option<Action<TestEffect>>) -> String {
             caller,
             targets.iter().map(|t| format!(" {}", t)).collect::<String>()
         ),
-        Some(Action::Deliver { target, value }) => format!("(deliver {} {})", target, dv(&value, ctx)),
+        Some(Action::Deliver { target, value, .. }) => format!("(deliver {} {})", target, dv(&value, ctx)),
         Some(Action::RequestEffect { .. }) => "(effect)".into(),
     }
 }
@@ -425,6 +428,12 @@ fn run_case(line: &str) -> String {
                     ctx.ex.mark_active(PID);
                 }
                 out.push_str(&format!(" ({} {})", name, dump(&ctx)));
+            }
+            "report" => {
+                // Worker::update_await_results: the state of every process in the answer is known
+                let ts: Vec<usize> = a.iter().map(|k| 100 + k.usize()).collect();
+                ctx.ex.notify_await_report(PID, &ts);
+                out.push_str(&format!(" (report {})", dump(&ctx)));
             }
             "active" => {
                 ctx.ex.mark_active(PID);
